@@ -194,8 +194,8 @@ func (x *Exec) unknownCall(cs *callSite, name string) *Val {
 		x.assumeNote("external call " + name + " summarised as effect-free with an unconstrained result")
 		return x.freshResult(cs.st, "ext", cs.res)
 	}
-	x.assumeNote("external call " + name + " summarised as havoc of all heaps with an unconstrained result")
-	x.havocAll(cs.st, "call")
+	x.assumeNote("external call " + name + " summarised as havoc (with an unconstrained result) of all memory except objects of types declared in this repository that are not passed to it")
+	x.havocExternal(cs, "call")
 	return x.freshResult(cs.st, "ext", cs.res)
 }
 
@@ -221,13 +221,7 @@ var pureFuncs = map[string]bool{
 // dynamicCall: call through a function value that is not statically known.
 func (x *Exec) dynamicCall(cs *callSite, fv ssa.Value, v *Val) *Val {
 	// record the call event for contracts that speak about called(f)
-	name := ""
-	if p, ok := fv.(*ssa.Parameter); ok {
-		name = p.Name()
-	}
-	if p, ok := fv.(*ssa.FreeVar); ok {
-		name = p.Name()
-	}
+	name := dynName(fv)
 	if name != "" {
 		g := "called_" + name
 		old, ok := cs.st.ghost[g]
@@ -256,8 +250,8 @@ func (x *Exec) invoke(cs *callSite) *Val {
 			return r
 		}
 	}
-	x.assumeNote("interface call " + key + " summarised as havoc of all heaps with an unconstrained result")
-	x.havocAll(cs.st, "invoke")
+	x.assumeNote("interface call " + key + " summarised as havoc (with an unconstrained result) of all memory except objects of types declared in this repository that are not passed to it")
+	x.havocExternal(cs, "invoke")
 	return x.freshResult(cs.st, "inv_"+m.Name(), cs.res)
 }
 
@@ -855,11 +849,8 @@ func (x *Exec) modOfCall(m *modSet, cc *ssa.CallCommon) {
 		x.modOfFunc(m, callee.Fn.(*ssa.Function))
 	default:
 		// dynamic
-		if p, ok := cc.Value.(*ssa.Parameter); ok {
-			m.ghost["called_"+p.Name()] = true
-		}
-		if p, ok := cc.Value.(*ssa.FreeVar); ok {
-			m.ghost["called_"+p.Name()] = true
+		if n := dynName(cc.Value); n != "" {
+			m.ghost["called_"+n] = true
 		}
 		m.allHeaps = true
 		m.alloc = true
@@ -947,4 +938,63 @@ func restrictView(m *modSet, kind string) {
 	for _, g := range drop {
 		delete(m.ghost, g)
 	}
+}
+
+// dynName: source name of a function value that is a parameter or a captured variable.
+func dynName(v ssa.Value) string {
+	switch u := v.(type) {
+	case *ssa.Parameter:
+		return u.Name()
+	case *ssa.FreeVar:
+		return u.Name()
+	case *ssa.UnOp:
+		if fv, ok := u.X.(*ssa.FreeVar); ok {
+			return fv.Name()
+		}
+	}
+	return ""
+}
+
+// havocExternal: effect of a call into code outside the verified text. It may
+// change any memory except objects whose type is declared in this repository
+// and that are not reachable from an argument (one pointer/slice level).
+func (x *Exec) havocExternal(cs *callSite, why string) {
+	st := cs.st
+	passed := map[string]bool{}
+	note := func(t types.Type) {
+		for depth := 0; depth < 3 && t != nil; depth++ {
+			switch u := t.Underlying().(type) {
+			case *types.Pointer:
+				passed[x.heapName(u.Elem())] = true
+				t = u.Elem()
+			case *types.Slice:
+				passed[x.heapName(u.Elem())] = true
+				t = u.Elem()
+			default:
+				t = nil
+			}
+		}
+	}
+	for _, a := range cs.cc.Args {
+		note(a.Type())
+	}
+	if cs.cc.IsInvoke() {
+		note(cs.cc.Value.Type())
+	}
+	for _, h := range sortedHeapNames(x.heapSorts) {
+		if t, ok := x.heapTypes[h]; ok && !passed[h] {
+			if n, ok := t.(*types.Named); ok && n.Obj().Pkg() != nil && strings.HasPrefix(n.Obj().Pkg().Path(), repoMod) {
+				continue
+			}
+			if p, ok := t.(*types.Pointer); ok {
+				if n, ok := p.Elem().(*types.Named); ok && n.Obj().Pkg() != nil && strings.HasPrefix(n.Obj().Pkg().Path(), repoMod) {
+					continue
+				}
+			}
+		}
+		st.heaps[h] = x.sc.Fresh(h+"_"+why, x.heapSorts[h])
+	}
+	na := x.sc.Fresh("alloc_"+why, st.alloc.Sort)
+	x.sc.Assume(T(SBool, "(forall ((a Int)) (! (=> (select %s a) (select %s a)) :pattern ((select %s a))))", st.alloc.S, na.S, na.S))
+	st.alloc = na
 }
